@@ -63,6 +63,20 @@ type gen struct {
 	n    int // name counter
 	mods []*Module
 	all  []*Module // modules and submodules
+	// scale: in a few sets one kind of definition (1 features, 2 identities, 3 typedefs,
+	// 4 groupings) is drawn scaleBy times as often: hundreds of definitions of one kind, so
+	// that code which behaves differently above a size threshold is reached at all
+	scaleKind, scaleBy int
+}
+
+func (g *gen) times(kind, n int) int {
+	if kind == g.scaleKind && g.scaleBy > 1 {
+		if n == 0 {
+			n = 1
+		}
+		return n * g.scaleBy
+	}
+	return n
 }
 
 func (g *gen) name(p string) string { g.n++; return fmt.Sprintf("%s%d", p, g.n) }
@@ -71,6 +85,11 @@ func (g *gen) name(p string) string { g.n++; return fmt.Sprintf("%s%d", p, g.n) 
 // operators may be applied (recorded in Set.Ops).
 func GenerateSet(t *tape.Tape, illFormed bool) *Set {
 	g := &gen{t: t, set: &Set{Probes: map[string]bool{}}}
+	if t.Rare(12) {
+		g.scaleKind = 1 + t.Draw(4)
+		g.scaleBy = 20 + t.Draw(130)
+		g.set.Probes["scaled_definitions"] = true
+	}
 	nm := 1 + t.Draw(4)
 	for i := 0; i < nm; i++ {
 		m := &Module{Name: fmt.Sprintf("m%d", i), Prefix: fmt.Sprintf("p%d", i)}
@@ -298,7 +317,7 @@ func (g *gen) ref(m, def *Module, name string) string {
 
 func (g *gen) features(m *Module) {
 	t := g.t
-	for n := t.Draw(4); n > 0; n-- {
+	for n := g.times(1, t.Draw(4)); n > 0; n-- {
 		f := S("feature", g.name("f"))
 		// if-feature chain to visible earlier features
 		var cands []struct {
@@ -340,7 +359,7 @@ func (g *gen) features(m *Module) {
 
 func (g *gen) identities(m *Module) {
 	t := g.t
-	for n := t.Draw(4); n > 0; n-- {
+	for n := g.times(2, t.Draw(4)); n > 0; n-- {
 		id := S("identity", g.name("id"))
 		var cands []struct {
 			m *Module
@@ -509,7 +528,7 @@ func (g *gen) typeStmt(m *Module, depth int) (*Stmt, string) {
 
 func (g *gen) typedefs(m *Module) {
 	t := g.t
-	for n := t.Draw(4); n > 0; n-- {
+	for n := g.times(3, t.Draw(4)); n > 0; n-- {
 		td := &TypeDef{Name: g.name("t"), Mod: m}
 		var ty *Stmt
 		def := ""
@@ -858,7 +877,7 @@ func (g *gen) fill(m *Module, n *DNode, depth int) {
 
 func (g *gen) groupings(m *Module) {
 	t := g.t
-	for n := t.Draw(3); n > 0; n-- {
+	for n := g.times(4, t.Draw(3)); n > 0; n-- {
 		gr := &Grouping{Name: g.name("g"), Mod: m}
 		st := S("grouping", gr.Name)
 		holder := &DNode{Kind: "grouping", Name: gr.Name, Mod: m, Stmt: st}
@@ -1124,7 +1143,10 @@ func addLinkage(m *Module, st *Stmt) {
 
 func (g *gen) breakSomething() {
 	t := g.t
-	op := t.Draw(22)
+	op := t.Draw(28)
+	if op >= 22 {
+		op = 3 + (op-22)%3 // the reference-cycle shapes (typedefs, identities, features) get three times the weight of the other operators
+	}
 	mods := g.mods
 	m := mods[t.Draw(len(mods))]
 	switch op {
@@ -1229,6 +1251,12 @@ func (g *gen) breakSomething() {
 		// shape: a chain of `tail` definitions leading into a cycle of `cyc` definitions (tail 0 = plain cycle,
 		// cyc 1 = self reference); definitions are emitted in a drawn order, optionally with a user of the chain
 		tail, cyc := t.Draw(3), 1+t.Draw(3)
+		if t.Rare(10) {
+			// long chains and long cycles (dozens to hundreds of definitions)
+			tail += t.Draw(40)
+			cyc += t.Draw(300)
+			g.set.Probes["long_reference_cycle"] = true
+		}
 		n := tail + cyc
 		names := make([]string, n)
 		pfx := map[int]string{3: "tc", 4: "idc", 5: "fc"}[op]
